@@ -33,6 +33,10 @@ CHECKS = {
    text="TLC enumerates, on the schedule-level specification HGSched.tla over the plan tree derived from the engine model, every completion order of every superstep under max_concurrency in {unlimited,1,2,3} (invariants: in-flight bound, permits, all tasks ran; no deadlock); each enumerated order is replayed on the real AsyncRunner by a controlled driver that releases parked node bodies one at a time, and the outcome (status, values, invocation multiset, error, partial values) is compared with the SyncRunner run and with the model; node-list permutations are compared when output names are unique.",
    note="Trusted: TLC, the controlled asyncio driver (bodies park on harness futures), builder. Schedules beyond the cap per program are sampled. Interrupts excluded (C14).",
    technique="TLA+ schedule-level spec model-checked by TLC; replay of TLC-enumerated schedules into the real async runner"),
+ "C05": dict(level="model_checking", engine="HGEngine",
+   text="For every generated DAG and every (capped) convex node subset, nestings with local renames, binding placement, inner select and depth 1..3 are built; TLC checks on the models that the nested run equals the flat run (values, exposed outputs, arguments of every leaf function: HGProps!C05) and that InputSpec.tla is invariant under nesting; the real nested and flat graphs are compared with each other and with the specification (graph.inputs as sets, values, leaf arguments).",
+   note="Trusted: TLC, builder, gen.nest (constructs the nesting and its flat equivalent). Inner select hides only secondary outputs of multi-output nodes (select narrows a graph's inputs by design).",
+   technique="TLA+ engine model + InputSpec: nested vs flat equivalence as TLC invariant; spec->code differential (nested vs flat vs model)"),
  "C10": dict(level="model_checking", engine="HGEngine",
    text="Input combinations (zip/product, row-major) and list collection are defined in HGEngine.tla and evaluated by TLC for every mapping-node and runner.map case of an enumerated family (lengths 0..3, 1-2 mapped parameters, failing items, branching items, raise/continue, renames, clone); the real runners are compared item by item. MapPool.tla (worker pool, completion-order append, order restoration, first error in input order) is model-checked for every configuration and EVERY completion order TLC finds is replayed on AsyncRunner.map with the controlled driver.",
    note="Trusted: TLC, controlled driver, builder. N<=3 items for the pool replay.",
